@@ -524,6 +524,90 @@ func runOne(r *mon.Run, en *entry, c Case) {
 	}
 }
 
+// neutralKeys: what a failed decode leaves behind (the "nil key" neutral state: a key object without a point, a
+// signature object without a scalar, an expanded key that was never filled in) must be inert - every verification entry
+// point given such an object answers false, under every option set, and does not panic.
+func neutralKeys(r *mon.Run, c Case) {
+	run := func(name string, f func() bool) {
+		var got bool
+		zzverifrt.Arm(5_000_000)
+		pan, msg := mon.Try(func() { got = f() })
+		zzverifrt.Arm(0)
+		r.Eval([]byte("neutral|" + name))
+		r.Hist("neutral-state/" + name)
+		switch {
+		case pan:
+			r.Violate("untrusted/neutral-state-key/"+name+"/panic", msg, c)
+		case got:
+			r.Violate("untrusted/neutral-state-key/"+name+"/accepted", "verification with a key object that holds no key returned true", c)
+		}
+	}
+	for fl := 0; fl < 32; fl++ {
+		f := ref.FlagsFromBits(fl)
+		if f.NonCanonR && f.Cofactorless {
+			continue // documented panic: incompatible options
+		}
+		vo := &ed25519.VerifyOptions{AllowSmallOrderA: f.SmallA, AllowSmallOrderR: f.SmallR, AllowNonCanonicalA: f.NonCanonA, AllowNonCanonicalR: f.NonCanonR, CofactorlessVerify: f.Cofactorless}
+		for _, o := range []*ed25519.Options{{Verify: vo}, {Verify: vo, Context: "ctx"}} {
+			o := o
+			run(fmt.Sprintf("ed25519.VerifyExpandedWithOptions(zero-value key)/fl%02d", fl), func() bool {
+				return ed25519.VerifyExpandedWithOptions(&ed25519.ExpandedPublicKey{}, msgM, goodSig, o)
+			})
+			run(fmt.Sprintf("ed25519.BatchVerifier.AddExpandedWithOptions(zero-value key)/fl%02d", fl), func() bool {
+				bv := ed25519.NewBatchVerifier()
+				bv.AddExpandedWithOptions(&ed25519.ExpandedPublicKey{}, msgM, goodSig, o)
+				bv.AddWithOptions(pub, msgM, goodSig, &ed25519.Options{Verify: vo})
+				ok, each := bv.Verify(nil)
+				return ok || each[0]
+			})
+			run(fmt.Sprintf("ed25519.BatchVerifier.VerifyBatchOnly(zero-value key)/fl%02d", fl), func() bool {
+				bv := ed25519.NewBatchVerifier()
+				bv.AddExpandedWithOptions(&ed25519.ExpandedPublicKey{}, msgM, goodSig, o)
+				bv.AddExpandedWithOptions(&ed25519.ExpandedPublicKey{}, msgM, goodSig, o)
+				return bv.VerifyBatchOnly(nil)
+			})
+		}
+	}
+	run("ed25519.VerifyExpanded(zero-value key)", func() bool { return ed25519.VerifyExpanded(&ed25519.ExpandedPublicKey{}, msgM, goodSig) })
+	msk, _ := sr25519.NewMiniSecretKeyFromBytes(seed0)
+	kp := msk.ExpandUniform().KeyPair()
+	st := sr25519.NewSigningContext([]byte("c")).NewTranscriptBytes(msgM)
+	sig, _ := kp.Sign(nil, st)
+	for _, junk := range [][]byte{nil, {1, 2, 3}, make([]byte, 31), bytes.Repeat([]byte{0xff}, 32), make([]byte, 64)} {
+		var pk sr25519.PublicKey
+		good, _ := kp.PublicKey().MarshalBinary()
+		pk.UnmarshalBinary(good)
+		if pk.UnmarshalBinary(junk) == nil {
+			continue
+		}
+		var bad sr25519.Signature
+		sb, _ := sig.MarshalBinary()
+		bad.UnmarshalBinary(sb)
+		if bad.UnmarshalBinary(junk) == nil {
+			continue
+		}
+		name := fmt.Sprintf("(after failed decode of %d bytes)", len(junk))
+		run("sr25519.PublicKey.Verify"+name, func() bool { return pk.Verify(st, sig) })
+		run("sr25519.Verify(signature"+name+")", func() bool { return kp.PublicKey().Verify(st, &bad) })
+		run("sr25519.BatchVerifier(key"+name+")", func() bool {
+			bv := sr25519.NewBatchVerifier()
+			bv.Add(&pk, st, sig)
+			bv.Add(kp.PublicKey(), st, sig)
+			ok, each := bv.Verify(nil)
+			return ok || each[0]
+		})
+		run("sr25519.BatchVerifier(signature"+name+")", func() bool {
+			bv := sr25519.NewBatchVerifier()
+			bv.Add(kp.PublicKey(), st, &bad)
+			bv.Add(kp.PublicKey(), st, sig)
+			ok, each := bv.Verify(nil)
+			return ok || each[0]
+		})
+	}
+	run("sr25519.PublicKey.Verify(zero-value key)", func() bool { var z sr25519.PublicKey; return z.Verify(st, sig) })
+	run("sr25519.Verify(zero-value signature)", func() bool { return kp.PublicKey().Verify(st, &sr25519.Signature{}) })
+}
+
 func main() {
 	r := mon.Start("C19", "table of ~70 byte-taking entry points (scalar/point/key/signature/proof decoders; Ed25519 single/expanded/batch/cached verification; signing-side option validation; ECVRF; X25519 and conversions; sr25519 decoders, verification and batch; h2c expanders and suites; Merlin operations; entropy readers) x lengths 0..nominal+40, 2*nominal, 128, 255..257, 1000 (+4 KiB, 70000, 1 MiB for message-like arguments) x contents {zeros, ff, valid prefix + junk, PRNG} + nil; receivers pre-loaded with a non-neutral value; per call: recover(), documented-panic table from the doc comments, wrong-length => failure, receiver neutral (where the code documents a reset) or unchanged, loop-tick budget 5e6 + 2e4/byte; non-trivial = (entry, length, fill); distinct = SHA-256 of it")
 	r.Workers = 1 // the loop-tick counter is process-global
@@ -536,6 +620,8 @@ func main() {
 	if r.LoadReplay(&c) {
 		if en, ok := byName[c.Entry]; ok {
 			runOne(r, en, c)
+		} else if c.Entry == "neutral-state keys" {
+			neutralKeys(r, c)
 		}
 		r.Finish()
 		return
@@ -581,6 +667,7 @@ func main() {
 			r.Inconclusive("entry " + en.name + " never succeeded on its valid example")
 		}
 	}
+	neutralKeys(r, Case{Entry: "neutral-state keys"})
 	r.Sample("case", Case{Entry: tbl[0].name, Len: 31, Fill: "ff"})
 	r.Sample("case", Case{Entry: "sr25519.KeyPair.UnmarshalBinary", Len: 96, Fill: "valid-prefix+junk"})
 	r.Sample("case", Case{Entry: "merlin ops(label=b,msg=b,size=len b)", Len: 1 << 20, Fill: "random"})
